@@ -451,7 +451,7 @@ pub fn run(tier: Tier) -> i32 {
         "C16",
         tier,
         "exploration",
-        "proptest-generated scripts = call histories (1-4 calls on one client) x credentials (absent / arbitrary user and password text incl. ':' and non-ASCII) x URL path with optional query x per call: request value, reply status in {200,201,204,400,401,403,404,500,503}, reply body in {exact envelope, re-prefixed, default-namespace, empty, non-XML, truncated, other root, SOAP Fault, wrong-namespace Envelope}, transport in {ok, refused, closed before headers, closed after headers}; run through helpers::send_soap_request_using_client (compiled unmodified from /repo) against a raw-socket loopback server that records every request. Oracle per call: exactly one request (none when refused), POST, target = URL path+query, body byte-equal to the serialized envelope, Authorization: Basic base64(user:pass) iff credentials; Ok(v) iff transport ok and 2xx and envelope body, with v equal to the scripted value; otherwise Err. Requests violating a facet must yield the restriction error and zero connections. Non-trivial: script with a failing exchange or credentials; distinct by the whole script.",
+        "proptest-generated scripts = call histories (1-4 calls on one client) x credentials (absent / arbitrary user and password text incl. ':' and non-ASCII) x URL path with optional query x per call: request value, reply status in {200,201,204,400,401,403,404,500,503}, reply body in {exact envelope, re-prefixed, default-namespace, empty, non-XML, truncated, other root, SOAP Fault, wrong-namespace Envelope}, transport in {ok, refused, closed before headers, closed after headers}; run through helpers::send_soap_request_using_client (compiled unmodified from /repo) against a raw-socket loopback server that records every request. Oracle per call: exactly one request (none when refused), POST, target = URL path+query, body byte-equal to the serialized envelope, Authorization: Basic base64(user:pass) iff credentials; Ok(v) iff transport ok and 2xx and envelope body, with v equal to the scripted value; otherwise Err. Requests violating a facet must yield the restriction error and zero connections. Pipeline path: for generated WSDL clients (24 quick / 300 thorough) every operation is called through the generated service method with configured credentials (incl. an empty user name and ':' in it) and a location overridden to the loopback listener, once answered 200 with a valid response envelope and once 500: exactly one POST to the configured path+query, body byte-equal to the serialized request, the Basic header of the configured credentials, Ok(value equal to the scripted one) for 200 and Err for 500. Non-trivial: script with a failing exchange or credentials; distinct by the whole script.",
     );
     ev.assume("proxy environment variables are ignored (client built with no_proxy); the server answers Connection: close, so every call uses a fresh connection");
     let wd = Watchdog::start("C16", 60);
@@ -499,10 +499,20 @@ pub fn run(tier: Tier) -> i32 {
         }
     }
     wd.stop();
+    // pipeline path: generated clients forward client, location and credentials unchanged
+    crate::soap::run_into(
+        &mut ev,
+        &findings,
+        tier,
+        &crate::soap::Cfg { id: "C16", aspect: crate::soap::Aspect::Exchange, rule: "", n_quick: 24, n_thorough: 300 },
+    );
     ev.finish()
 }
 
 pub fn replay(case: &serde_json::Value) -> i32 {
+    if case["wire_case"].is_object() {
+        return crate::soap::replay("C16", crate::soap::Aspect::Exchange, case);
+    }
     let script: Script = serde_json::from_value(case["script"].clone()).expect("C16 script");
     let rt = tokio::runtime::Builder::new_current_thread().enable_all().build().unwrap();
     let server = Server::start();
